@@ -2,6 +2,14 @@ package main
 
 func init() {
 	addMutants(
+		Mutant{Property: "C13", Name: "delete-envelope-key-renamed", File: "internal/log.go",
+			Old: "\t\tTargetID   json.RawMessage `json:\"targetId\"`\n\t\tKey        string          `json:\"key\"`", New: "\t\tTargetID   json.RawMessage `json:\"targetId\"`\n\t\tKey        string          `json:\"metadataKey\"`", Expect: "R13h:ledger.DeleteMetadataLogPayload"},
+		Mutant{Property: "C13", Name: "set-envelope-key-case-only", File: "internal/log.go",
+			Old: "\t\tTargetID   json.RawMessage   `json:\"targetId\"`\n\t\tMetadata   metadata.Metadata `json:\"metadata\"`\n\t}\n\tx := X{}", New: "\t\tTargetID   json.RawMessage   `json:\"targetID\"`\n\t\tMetadata   metadata.Metadata `json:\"metadata\"`\n\t}\n\tx := X{}", Expect: "none", Benign: true},
+		Mutant{Property: "C13", Name: "chained-envelope-explicit-without-date", File: "internal/log.go",
+			Old: "\ttype auxLog ChainedLog\n\ttype log struct {\n\t\tauxLog\n\t\tData json.RawMessage `json:\"data\"`\n\t}", New: "\ttype auxLog struct {\n\t\tLog  `json:\"-\"`\n\t\tType LogType  `json:\"type\"`\n\t\tIdempotencyKey string `json:\"idempotencyKey\"`\n\t\tID   *big.Int `json:\"id\"`\n\t\tHash []byte   `json:\"hash\"`\n\t}\n\ttype log struct {\n\t\tauxLog\n\t\tData json.RawMessage `json:\"data\"`\n\t}",
+			Edits: []Edit{{File: "internal/log.go", Old: "\trawLog.auxLog.Data, err = HydrateLog(rawLog.Type, rawLog.Data)\n\tif err != nil {\n\t\treturn err\n\t}\n\t*l = ChainedLog(rawLog.auxLog)", New: "\tpayload, err := HydrateLog(rawLog.Type, rawLog.Data)\n\tif err != nil {\n\t\treturn err\n\t}\n\t*l = ChainedLog{Log: Log{Type: rawLog.Type, Data: payload, IdempotencyKey: rawLog.IdempotencyKey}, ID: rawLog.ID, Hash: rawLog.Hash}"}},
+			Expect: "R13h:ledger.ChainedLog"},
 		Mutant{Property: "C13", Name: "hydrate-drops-delete-case", File: "internal/log.go",
 			Old: "\tcase DeleteMetadataLogType:\n\t\tpayload = &DeleteMetadataLogPayload{}\n", New: "", Expect: "R13a:HydrateLog:DeleteMetadataLogType"},
 		Mutant{Property: "C13", Name: "string-label-typo", File: "internal/log.go",
